@@ -84,7 +84,7 @@ MANIFEST = {
     'of the update generator are run on the real Adj-RIB-Out. Once the queue has drained the table a reference peer builds from the emitted '
     'UPDATEs, the table ExaBGP reports and the table a sequential model of the history predicts must agree. All histories of length <= 4 over a '
     '2 prefix x 2 variant universe are enumerated (fault enumeration for that sub-space); longer histories over a larger universe are sampled.',
-    'note': 'L1 only (direct RIB + encoder, no sockets); watchdog members are never removed from the configuration; reset() is modelled with the '
+    'note': 'L1 (direct RIB + encoder, no sockets) carries the enumeration; L2 replays API histories against a live session in the virtual-clock lab where the real Peer._main consumes the RIB (peer table == reported == intended at quiescence); watchdog members are never removed from the configuration; reset() is modelled with the '
     'session loss that always accompanies it; attributes are compared on MED/communities/next hop',
 }
 SHARD_TIMEOUT = {'quick': 600, 'thorough': 3000}
